@@ -131,7 +131,7 @@ func CheckC17(sc Scenario, rec *Rec) error {
 		return err
 	}
 	if d1 == "" {
-		rec.Class("skipped: random constructor produced a gene-less genome")
+		rec.Class("skipped: constructor outside the domain (gene-less random genome / failing turnover before the checkpoint)")
 		return nil
 	}
 	interfere(sc.Seed)
